@@ -194,7 +194,7 @@ Definition send_command_code : list dstmt :=
   [DIf (DEq "len(driverOpts.FailedWhenContains)" "0") [DAssign "driverOpts.FailedWhenContains" "d.FailedWhenContains"] []; DAssign "r" "response.NewResponse( command, d.Transport.GetHost(), d.Transport.GetPort(), driverOpts.FailedWhenContains, )"; DCall "d.Channel.SendInput(command, opts...)"; DIf (DNot (DEq "err" "nil")) [DReturn "nil, err"] []; DCall "r.Record(b)"; DReturn "r, nil"].
 (* driver/network/sendconfig.go Driver.SendConfig *)
 Definition send_config_code : list dstmt :=
-  [DAssign "configLines" "strings.Split(config, ""\n"")"; DCall "d.SendConfigs(configLines, opts...)"; DIf (DNot (DEq "err" "nil")) [DReturn "nil, err"] []; DAssign "r" "response.NewResponse( config, d.Transport.GetHost(), d.Transport.GetPort(), d.FailedWhenContains, )"; DAssign "r.StartTime" "m.StartTime"; DCall "r.Record([]byte(m.JoinedResult()))"; DIf (DNot (DEq "m.Failed" "nil")) [DAssign "r.Failed" "m.Failed"] []; DReturn "r, nil"].
+  [DAssign "configLines" "strings.Split(config, ""\n"")"; DCall "d.SendConfigs(configLines, opts...)"; DIf (DNot (DEq "err" "nil")) [DReturn "nil, err"] []; DAssign "r" "response.NewResponse( config, d.Transport.GetHost(), d.Transport.GetPort(), m.Responses[0].FailedWhenContains, )"; DAssign "rOutputs" "make([]string, len(m.Responses))"; DRange "resp" "m.Responses" [DAssign "i" "index of resp"; DAssign "rOutputs[i]" "resp.Result"]; DAssign "r.StartTime" "m.StartTime"; DAssign "r.EndTime" "time.Now()"; DAssign "r.ElapsedTime" "r.EndTime.Sub(r.StartTime).Seconds()"; DAssign "r.Result" "strings.Join(rOutputs, ""\n"")"; DAssign "r.Failed" "m.Failed"; DReturn "r, nil"].
 (* driver/options/*.go (C19): the closures *)
 Definition option_code : list (string * list dstmt) := [
   ("WithAuthUsername",
